@@ -96,6 +96,19 @@ OColsOk(e) ==
   /\ \A p \in 1..Len(cl) : /\ e.pts[2 * p - 1] = Num(PathOf(cl[p], e.k, CornerX))
                            /\ e.pts[2 * p]     = Num(PathOf(cl[p], e.k, CornerY))
 
+\* ---- counting under contention (C07): `copies` identical records, 16 threads, no hooks: every canonical k-mer of the
+\* record once, with copies x its number of occurrences; nothing temporary left
+CtrStressOk(e) ==
+  LET cw == CanonWindows(Classes(e.bytes), e.k)
+      kinds == {cw[i] : i \in 1..Len(cw)}
+  IN /\ Len(e.lines) = Cardinality(kinds)
+     /\ e.temps = 0
+     /\ \A i \in 1..Len(e.lines) :
+          LET d == LowDigits(e.lines[i][1], e.k) IN
+          /\ HighZero(e.lines[i][1], e.k) /\ d \in kinds
+          /\ e.lines[i][2] = e.copies * Occ(cw, d)
+     /\ \A i, j \in 1..Len(e.lines) : i # j => e.lines[i][1] # e.lines[j][1]
+
 EventOk ==
   l > 1 =>
     LET e == Rec[l - 1] IN
@@ -105,6 +118,12 @@ EventOk ==
       [] e.ev = "orec"   -> ORecOk(e, IF l > 2 THEN Rec[l - 2] ELSE e)
       [] e.ev = "cgr"    -> CgrOk(e)
       [] e.ev = "ocols"  -> OColsOk(e)
+      \* C05: same records, another container / writer / thread count / batch limit: same bytes;
+      \* a header adds exactly one line
+      [] e.ev = "same"   -> e.digest = e.first /\ e.digest # "failed" /\ e.lines = e.n + e.hdr
+      \* C14: largest index used + 1 <= buffer length, for each unchecked access site
+      [] e.ev = "idx"    -> \A i \in 1..(Len(e.a) \div 2) : e.a[2 * i - 1] <= e.a[2 * i]
+      [] e.ev = "ctrstress" -> CtrStressOk(e)
       [] e.ev = "batchlen" -> e.got = e.n          \* a batch call returns one result per argument
       [] e.ev = "eof"    -> l - 1 = Len(Rec)
       [] OTHER           -> FALSE
